@@ -17,13 +17,16 @@ func rulesC04(c *Ctx) {
 		"R4.1/R4.5 modifyEntry's decision table: the RIB is called only when checkElectionForModify returned (proceed, nil error); every rejecting cell returns without any RIB call",
 		"R4.2 checkElectionForModify's decision table over all valuations of {id present, election state present, session announced, session is master, order(op id, session's last id), order(op id, current id)}: proceed ⇔ all present ∧ master ∧ op = latest ∧ op = current; 128-bit comparisons high word first",
 		"R4.3 doModify hands every modifyEntry call one election snapshot built from the locked getElection read, the session's last announced id and the session id, taken before the loop",
-		"R4.4 inside package server only modifyEntry calls RIB.AddEntry/DeleteEntry and only Server.Flush calls RIB.Flush")
+		"R4.4 inside package server only modifyEntry calls RIB.AddEntry/DeleteEntry and only Server.Flush calls RIB.Flush",
+		"R4.6 the inputs of the gate are maintained as specified: every accepted announcement records the session's last announced id (before the election, win or lose) and the election state changes only on a new-master verdict of the lexicographic comparison (runElection / isNewMaster tables, shared with C05)")
 	c.NotDec = append(c.NotDec, "interleavings in which the primary changes between the snapshot and the install (the statement is phrased at arrival time, which the snapshot implements)")
 	ruleModifyEntryTable(c)
 	ruleCheckElectionTable(c)
 	ruleElectionSnapshot(c)
 	ruleRIBCallers(c)
 	ruleUint128Sites(c)
+	ruleRunElectionTable(c)
+	ruleIsNewMaster(c, "C04")
 }
 
 // ribCallEvents: calls into the RIB or to state-changing server methods, with argument roles.
